@@ -6,21 +6,25 @@
    "cannot trash" was reported), plus termination of the name search (C17). *)
 From TV Require Import Prelude.Str Prelude.PosixPath Prelude.Utf8 Codec.Quote Codec.DateFmt Codec.TrashInfo
   Logic.OrigLoc Logic.Reply Prog.Prog Cmd.Put Cmd.Scan Proofs.ProgProofs Proofs.PLogic Proofs.ScanProofs
-  Proofs.TrashInfoProofs Proofs.OrigLocProofs Proofs.PutSafe.
+  Proofs.TrashInfoProofs Proofs.OrigLocProofs Proofs.PathProofs Proofs.PutSafe.
 From Coq Require Import Lia.
 Open Scope N_scope.
 
-Inductive wphase := Opened | Written | Closed.
+Inductive wphase := Opened | Written | Closed | Broken.
 Record pst := mkpst { p_res : option (str * wphase); p_moved : bool; p_refused : bool; p_nfail : nat }.
 Definition set_res (s : pst) r := mkpst r (p_moved s) (p_refused s) (p_nfail s).
 Definition set_refused (s : pst) := mkpst (p_res s) (p_moved s) true (p_nfail s).
+(* a refused removal: the reservation can no longer become a trashed entry *)
+Definition set_broken (s : pst) (p : str) := mkpst (Some (p, Broken)) (p_moved s) true (p_nfail s).
 
 Definition put_step (s : pst) (o : op) (r : res) : option pst :=
   match o with
-  | OpenExcl p => Some (match r with RUnit => set_res s (Some (p, Opened)) | _ => s end)
+  (* only info files are created: <dir>/info/<name>.trashinfo *)
+  | OpenExcl p => if is_info_path p then Some (match r with RUnit => set_res s (Some (p, Opened)) | _ => s end) else None
   | WriteFd b =>
       match p_res s with
-      | Some (p, Opened) => if parseable b then Some (match r with RUnit => set_res s (Some (p, Written)) | _ => s end) else None
+      (* one write, of parseable content; after a failed write nothing more is written (Broken) *)
+      | Some (p, Opened) => if parseable b then Some (set_res s (Some (p, match r with RUnit => Written | _ => Broken end))) else None
       | _ => None
       end
   | CloseFd => Some (match r with
@@ -28,10 +32,11 @@ Definition put_step (s : pst) (o : op) (r : res) : option pst :=
                      | _ => set_refused s
                      end)
   | Remove q | Rmtree q =>
-      Some (match p_res s with
-            | Some (p, _) => if str_eqb q p then (match r with RUnit => set_res s None | _ => set_refused s end) else s
-            | None => s
-            end)
+      (* trash-put removes nothing but the info file it has reserved and not yet given a payload *)
+      match p_res s with
+      | Some (p, _) => if str_eqb q p then Some (match r with RUnit => set_res s None | _ => set_broken s p end) else None
+      | None => None
+      end
   | Lexists q =>
       Some (match r, p_res s with
             | RBool false, Some (p, _) => if str_eqb q p then set_res s None else s
@@ -109,12 +114,12 @@ Ltac inv_solve := repeat split; simpl; auto.
 
 (* fs.py RealAtomicWrite *)
 Lemma wp_atomic_write k path content s :
-  parseable content = true -> Inv k s ->
+  parseable content = true -> is_info_path path = true -> Inv k s ->
   wp put_step (atomic_write path content)
      (fun s' _ => p_res s' = Some (path, Closed) /\ p_moved s' = false /\ p_nfail s' = k)
      (fun s' _ => Inv k s') s.
 Proof.
-  intros Hp [Hm [Hr Hn]]. unfold atomic_write. apply wp_bind. apply wp_call_unit. intros r Hv. eexists. split; [reflexivity|].
+  intros Hp Hi [Hm [Hr Hn]]. unfold atomic_write. apply wp_bind. apply wp_call_unit. intros r Hv. eexists. split; [simpl; rewrite Hi; reflexivity|].
   vu Hv; [|inv_solve].
   apply wp_bind. apply wp_catch. apply wp_call_unit. intros r Hv'. simpl. rewrite Hp. eexists. split; [reflexivity|].
   vu Hv'.
@@ -135,19 +140,20 @@ Proof.
 Qed.
 
 (* info_file_persister.py try_persist *)
-Lemma wp_try_persist k d : parseable (td_content d) = true -> forall fuel idx ntl s, Inv k s ->
+Lemma wp_try_persist k d : wf_data d -> forall fuel idx ntl s, Inv k s ->
   wp put_step (try_persist fuel d idx ntl)
     (fun s' r => match r with Persisted p => Reserved k p s' | _ => Inv k s' end)
     (fun s' _ => Inv k s') s.
 Proof.
-  intros Hp. induction fuel as [|f IH]; intros idx ntl s Hs; [exact Hs|]. cbn [try_persist].
-  apply wp_bind. eapply wp_mono; [| |apply (wp_plain k _ (fun _ => True) s (safe_suffix_for_index PPL ppl_ok idx) Hs)]; [|auto].
-  intros s1 suffix [Hs1 _]. cbv beta.
+  intros Hwf. assert (Hp : parseable (td_content d) = true) by apply Hwf.
+  induction fuel as [|f IH]; intros idx ntl s Hs; [exact Hs|]. cbn [try_persist].
+  apply wp_bind. eapply wp_mono; [| |apply (wp_plain k _ _ s (safe_suffix_for_index PPL ppl_ok idx) Hs)]; [|auto].
+  intros s1 suffix [Hs1 Hsfx]. cbv beta.
   set (path := join2 (td_info_dir d) (create_trashinfo_basename (td_basename d) suffix ntl)).
   apply wp_bind. eapply wp_mono; [| |apply (wp_plain k _ (fun _ => True) s1 (T_call_bool PPL (Exists (path_of_backup_copy path)) (ppl_ok (Exists (path_of_backup_copy path)) eq_refl)) Hs1)]; [|auto].
   intros s2 taken [Hs2 _]. cbv beta. destruct taken; [apply IH; exact Hs2|].
   apply wp_bind. apply wp_catch. apply wp_bind.
-  eapply wp_mono; [| |apply (wp_atomic_write k path (td_content d) s2 Hp Hs2)].
+  eapply wp_mono; [| |apply (wp_atomic_write k path (td_content d) s2 Hp (info_path_of_data d suffix ntl Hwf Hsfx) Hs2)].
   - (* created *) intros s3 u Hres. cbv beta. apply wp_ret. cbv beta iota. apply wp_bind. apply wp_debug_log. apply wp_ret. exact Hres.
   - (* the exclusive create / write / close raised *)
     intros s3 e Hs3. cbv beta. destruct e as [n| | | | | | | | | |]; try exact Hs3. cbv beta iota. apply wp_ret. cbv beta iota.
@@ -166,7 +172,7 @@ Proof.
   eexists. split; [reflexivity|]. simpl. rewrite Hr. rewrite str_eqb_refl. destruct b.
   - apply wp_catch. apply wp_call_unit. intros r Hv'. eexists. split; [simpl; rewrite Hr, str_eqb_refl; reflexivity|].
     vu Hv'; [inv_solve|]. cbv beta iota.
-    apply wp_call_unit. intros r Hv''. eexists. split; [simpl; rewrite Hr, str_eqb_refl; reflexivity|].
+    apply wp_call_unit. intros r Hv''. eexists. split; [simpl; rewrite str_eqb_refl; reflexivity|].
     vu Hv''; inv_solve.
   - inv_solve.
 Qed.
